@@ -215,9 +215,15 @@ class Sim:
         return dict(e="cmd", t=t + 1, raw=list(raw), rport=remote[1], exc=exc, outs=outs,
                     slept=[int(round(s * 1000)) for s in self.time.slept])
 
-    def data(self, t, raw):
+    def data(self, t, raw, remote=None):
+        """A datagram arrives on the data socket of transceiver t: from its L1 (the address the
+        application was configured with) unless another source is given."""
         trx = self.trx[t]
-        trx.data_if.sock.feed(raw)
+        if not hasattr(self, "_l1addr"):
+            self._l1addr = {}
+        if t not in self._l1addr:
+            self._l1addr[t] = (trx.data_if.remote_addr, trx.data_if.remote_port)
+        trx.data_if.sock.feed(raw, remote or self._l1addr[t])
         exc = ""
         acc = False
         try:
